@@ -175,7 +175,8 @@ def summary_flags(b):
             # the innermost loop that the init block is NOT part of, but which contains other assignments of the flag and is
             # dominated by the init
             cands = [h for h in loops if ib not in loops[h] and b.dominates(ib, h)
-                     and any(bb in loops[h] for bb, rv in assigns if bb != ib)]
+                     and any((bb in loops[h]) or (b.dominates(h, bb) and any(x in loops[h] for x in b.preds(bb)))
+                             for bb, rv in assigns if bb != ib)]
             if not cands:
                 continue
             # the outermost such loop nested directly under the init's own loop nest
@@ -195,6 +196,34 @@ def summary_flags(b):
                     if pl is not None and b.root(pl['l'], through=(), stop_named=False)[0] == l:
                         read_after = True
             if read_after:
+                # the arms of the loop that leave it (`flag = false; break;`) are not part of the natural loop but belong to
+                # the summarising region: blocks dominated by the header that can still reach the first test of the flag
+                # behind the loop without going round through the init
+                tests = []
+                for x in after:
+                    if x in loops[h]:
+                        continue
+                    t = b.term(x)
+                    if t['k'] == 'switch':
+                        pl = op_place(t['on'])
+                        if pl is not None and b.root(pl['l'], through=(), stop_named=False)[0] == l:
+                            tests.append(x)
+                region = set(loops[h])
+                if tests:
+                    preds = {}
+                    for x in b.reachable():
+                        for y in b.succs(x):
+                            preds.setdefault(y, set()).add(x)
+                    back = set()
+                    todo = list(tests)
+                    while todo:
+                        x = todo.pop()
+                        for y in preds.get(x, ()):
+                            if y not in back and y != ib and y not in tests:
+                                back.add(y)
+                                todo.append(y)
+                    region |= {x for x in back if b.dominates(h, x)}
+                inl = [(bb, rv) for bb, rv in assigns if bb in region and bb != ib]
                 out.append((l, c, ib, h, inl))
     return out
 
